@@ -11,6 +11,10 @@ def hook_commits():
         return []
 
 CHECKS = {
+ "C09": dict(cat="exploration",
+   text="Four probe families on real sessions: an In() probe in every body and guard of generated documents whose action compares every reported boolean with the live configuration at the call; an _event probe fed with host, raised, sent (internal / self / cross-session), platform and done events with all fields; write attempts of every kind against every system variable and _event field (error.execution expected, values re-read in the same microstep); nested state-local data under early and late binding with assignments and re-entry.",
+   note="Trusted: the probe action (receives &GlobalData = the live configuration), the expected field values in c09.rs. Root-level <data> under late binding and the type of done.state events are not judged (not fixed by the statement). ecmascript runs in strict mode.",
+   tech="runtime probes inside executable content and guards (assertions on hooked state) + field-by-field event comparison", ref="DESIGN.md §5 C09"),
  "C12": dict(cat="exploration",
    text="A table of failing platform operations and semantically odd but accepted documents (every attribute that may hold an expression, every malformed / nonexistent target spelling, illegal delays, 16 kinds of invoke that cannot start, odd host events), each in its own process and both content data models; monitors: panic hook attributed to session / timer threads that did not survive, presence of the mandated error event, bounded progress (probe event, cancel), and a healthy witness session of the same executor that must still send and receive.",
    note="Trusted: the scenario table's reading of which error event the Recommendation mandates (only presence is required; sending to a terminated session is not judged). 'Never stops responding' is restated as bounded progress after every injected failure.",
